@@ -121,7 +121,19 @@ partial def pConv (j : Json) : Except String Conv := do
       | "ranked" => pure (.subsetted 2 s)
       | "score" => pure (.subsetted 3 s)
       | _ => throw s!"unknown subsetter {kind}"
-  | "RoundedVotes" => do pure (.rounded (← j.getObjValAs? Nat "decimals"))
+  | "RoundedVotes" => do
+    let k ← j.getObjValAs? Nat "decimals"
+    match j.getObjValAs? String "round_method" with
+    | .ok "ROUND_HALF_UP" => pure (.rounded k)
+    | .ok "ROUND_HALF_DOWN" => pure (.roundedWith .halfDown k)
+    | .ok "ROUND_HALF_EVEN" => pure (.roundedWith .halfEven k)
+    | .ok "ROUND_DOWN" => pure (.roundedWith .down k)
+    | .ok "ROUND_UP" => pure (.roundedWith .up k)
+    | .ok "ROUND_CEILING" => pure (.roundedWith .ceiling k)
+    | .ok "ROUND_FLOOR" => pure (.roundedWith .floor k)
+    | .ok "ROUND_05UP" => pure (.roundedWith .r05up k)
+    | .ok m => throw s!"unknown round_method {m}"
+    | .error _ => pure (.rounded k)
   | "Chain" => do
     let cs ← (← pArr (← j.getObjVal? "cs")).mapM pConv
     pure (.chain cs)
